@@ -1,5 +1,6 @@
 // drive: runs generated histories against the real application and writes the step trace
-// (one JSON object per line) consumed by the Lean model driver.
+// (one JSON object per line) consumed by the Lean model driver. Each history runs in its own
+// child process so that a hang or crash inside the application ends only that history.
 package main
 
 import (
@@ -8,8 +9,33 @@ import (
 	"flag"
 	"fmt"
 	"os"
+	"os/exec"
 	"saoverif/sim"
+	"sync"
 )
+
+func runHistory(hs uint64, steps int, profile string, wr *bufio.Writer) {
+	enc := json.NewEncoder(wr)
+	c := sim.NewChain(sim.GenesisForProfile(profile, hs))
+	w := sim.NewWorld(c)
+	g := sim.NewGen(w, hs, profile)
+	enc.Encode(sim.M{"genesis": sim.M{"env": w.EnvJSON(), "state": w.Dump(c.Ctx())}, "hist": hs, "profile": profile})
+	for i := 0; i < steps; i++ {
+		op := g.Next()
+		res, o := w.Exec(&op)
+		enc.Encode(sim.M{"i": i, "op": o, "res": res, "state": w.Dump(c.Ctx()), "raw": op})
+		if res.Res == "hang" {
+			// a goroutine is still spinning inside the application: this process is done
+			wr.Flush()
+			os.Exit(0)
+		}
+		if res.Res == "panic" {
+			// the chain is halted: nothing further can be observed in this history
+			break
+		}
+	}
+	wr.Flush()
+}
 
 func main() {
 	seed := flag.Uint64("seed", 1, "PRNG seed")
@@ -17,42 +43,49 @@ func main() {
 	steps := flag.Int("steps", 300, "steps per history")
 	profile := flag.String("profile", "main", "generator profile")
 	out := flag.String("out", "-", "output file")
+	child := flag.Bool("child", false, "run exactly one history with -seed as history seed, to stdout")
+	jobs := flag.Int("j", 8, "parallel child processes")
+	replay := flag.String("replay", "", "replay the ops of a trace/replay file instead of generating")
 	flag.Parse()
-	var wr *bufio.Writer
-	if *out == "-" {
-		wr = bufio.NewWriterSize(os.Stdout, 1<<20)
-	} else {
-		f, err := os.Create(*out)
+	if *replay != "" {
+		os.Exit(sim.Replay(*replay, os.Stdout))
+	}
+	if *child {
+		wr := bufio.NewWriterSize(os.Stdout, 1<<20)
+		runHistory(*seed, *steps, *profile, wr)
+		return
+	}
+	var f *os.File = os.Stdout
+	if *out != "-" {
+		var err error
+		f, err = os.Create(*out)
 		if err != nil {
 			panic(err)
 		}
 		defer f.Close()
-		wr = bufio.NewWriterSize(f, 1<<20)
 	}
-	defer wr.Flush()
-	enc := json.NewEncoder(wr)
+	outs := make([][]byte, *hists)
+	var wg sync.WaitGroup
+	sem := make(chan struct{}, *jobs)
 	for h := 0; h < *hists; h++ {
-		hs := *seed*1000 + uint64(h)
-		c := sim.NewChain(sim.GenesisCfg{})
-		w := sim.NewWorld(c)
-		g := sim.NewGen(w, hs, *profile)
-		enc.Encode(sim.M{"genesis": sim.M{"env": w.EnvJSON(), "state": w.Dump(c.Ctx())}, "hist": hs, "profile": *profile})
-		for i := 0; i < *steps; i++ {
-			op := g.Next()
-			res, o := w.Exec(&op)
-			enc.Encode(sim.M{"i": i, "op": o, "res": res, "state": w.Dump(c.Ctx()), "raw": op})
-			if res.Res == "hang" {
-				// a goroutine is still spinning inside the application: this process is done
-				wr.Flush()
-				fmt.Fprintln(os.Stderr, "hang: exiting")
-				os.Exit(0)
+		wg.Add(1)
+		go func(h int) {
+			defer wg.Done()
+			sem <- struct{}{}
+			defer func() { <-sem }()
+			hs := *seed*1000 + uint64(h)
+			cmd := exec.Command(os.Args[0], "-child", "-seed", fmt.Sprint(hs), "-steps", fmt.Sprint(*steps), "-profile", *profile)
+			cmd.Stderr = os.Stderr
+			b, err := cmd.Output()
+			if err != nil {
+				fmt.Fprintf(os.Stderr, "history %d: child failed: %v\n", hs, err)
+				b = append(b, []byte(fmt.Sprintf("{\"crash\":%q,\"hist\":%d}\n", err.Error(), hs))...)
 			}
-			if res.Res == "panic" {
-				// the chain is halted: nothing further can be observed in this history
-				break
-			}
-		}
-		wr.Flush()
+			outs[h] = b
+		}(h)
 	}
-	fmt.Fprintln(os.Stderr, "done")
+	wg.Wait()
+	for _, b := range outs {
+		f.Write(b)
+	}
 }
